@@ -504,6 +504,17 @@ func (env *SpecEnv) call(e *SExpr) SpecVal {
 			v := env.eval(args[0])
 			al := x.get(env.state(), allocKey, ArrSort(SRef, SBool))
 			return SpecVal{t: Sel(al, v.t), typ: tBool}
+		case "arr2":
+			// arr2(a, b): the [2]T array value {a, b}
+			a := env.eval(args[0])
+			b := env.eval(args[1])
+			at := types.NewArray(a.typ, 2)
+			srt := x.tm.SortOf(at)
+			return SpecVal{t: App("mk_"+srt, srt, a.t, x.coerceSort(b.t, a.t.Sort)), typ: at}
+		case "allocatedArrId":
+			v := env.eval(args[0])
+			al := x.get(env.state(), arrAllocKey, ArrSort(SInt, SBool))
+			return SpecVal{t: Sel(al, v.t), typ: tBool}
 		case "allocatedArr":
 			v := env.eval(args[0])
 			al := x.get(env.state(), arrAllocKey, ArrSort(SInt, SBool))
